@@ -1,6 +1,6 @@
 /-
 IEEE-754 binary32 <-> binary64 conversions on bit patterns, written with bit-vector operations only
-(so that `bv_decide` can reason about them). Go: `float64(x)` (exact) and `float32(x)` (round to nearest even).
+(the round-trip lemmas are proved on `BitVec.toNat` level in `Proofs/FloatRTKernel.lean`). Go: `float64(x)` (exact) and `float32(x)` (round to nearest even).
 -/
 namespace PGT.F
 
